@@ -33,6 +33,7 @@ def dispatch1 (op : String) (j : Json) : R Json :=
   | "bpParse" => hBpParse j
   | "bpRender" => hBpRender j
   | "clump" => hClump j
+  | "overlap" => hOverlap j
   | "validate" => hValidate j
   | "outputVcf" => hOutputVcf j
   | "convertHap" => hConvertHap j
